@@ -78,7 +78,38 @@ type cbItem struct {
 	Shape cbShape     `  | "shape" @@`
 	Flags cbFlags     `  | "flags" @Ident+`
 	Addr  *cbAddr     `  | "addr" @String`
-	Opt   *cbDuration `  | "opt" @@? "!" ) ";"`
+	Opt   *cbDuration `  | "opt" @@? "!"`
+	Seq   *cbSeq      `  | "seq" @@`
+	Words []string    `  | "seq" @Ident+ "?" ) ";"`
+}
+
+// cbSeq is a Parseable that fills its receiver while it goes and gives up with NextMatch when the
+// list does not end in "." (a later alternative then takes over).
+type cbSeq struct {
+	Items []string
+}
+
+func (q *cbSeq) Parse(lex *lexer.PeekingLexer) error {
+	switch cbOutcome() {
+	case cbNextMatch:
+		return participle.NextMatch
+	case cbForeign:
+		return errForeign
+	case cbLocated:
+		return participle.Errorf(lex.Peek().Pos, "sim: located callback error")
+	}
+	start := lex.MakeCheckpoint()
+	for lex.Peek().Type == scanner.Ident {
+		q.Items = append(q.Items, lex.Next().Value)
+	}
+	if t := lex.Peek(); t.Value != "." {
+		// not ours: put the lexer back (the receiver keeps what was collected so far — it is
+		// thrown away by the library)
+		lex.LoadCheckpoint(start)
+		return participle.NextMatch
+	}
+	lex.Next()
+	return nil
 }
 
 // Parseable
@@ -154,6 +185,9 @@ func parseShape(lex *lexer.PeekingLexer) (cbShape, error) {
 			return nil, err
 		}
 		return cbCircle{r}, nil
+	case "hexagon":
+		// a plain Go error from user code (not a participle.Error): the library passes it through
+		return nil, fmt.Errorf("sim: shape %q is not supported", t.Value)
 	case "rect":
 		lex.Next()
 		w, err := num()
@@ -260,5 +294,7 @@ var worldCallbacks = &world{
 		{name: "bad-addr", valid: false, text: "addr \"noport\";"},
 		{name: "forbidden", valid: false, text: "flags ok forbidden;"},
 		{name: "bad-shape", valid: false, text: "shape rect 1 x;"},
+		{name: "seqs", valid: true, text: "seq a b ?; seq c .; seq d e f ?; seq .; seq g h .;"},
+		{name: "plain-user-error", valid: false, foreignErr: true, text: "dur 1; shape hexagon 6; dur 2;"},
 	},
 }
